@@ -644,7 +644,16 @@ func rootIface(v ssa.Value) ssa.Value {
 
 func checkC06Ctx(r *Report, p *Prog) {
 	rule := "C06.ctx"
-	fn := p.MustFunc("saml", "IdpAuthnRequest", "signingContext")
+	// role: the IdpAuthnRequest method that returns (*dsig.SigningContext, error)
+	var fn *ssa.Function
+	for _, f := range p.modFns {
+		if f.Signature.Recv() != nil && isMethodOf(f, "IdpAuthnRequest") && p.InLibrary(f) && f.Signature.Results().Len() == 2 && typeIs(f.Signature.Results().At(0).Type(), "github.com/russellhaering/goxmldsig", "SigningContext") {
+			fn = f
+		}
+	}
+	if fn == nil {
+		panic(unresolved{"IdpAuthnRequest method returning (*dsig.SigningContext, error)"})
+	}
 	a := NewAnalysis(p)
 	B := a.B
 	fc := a.Ctx(fn)
